@@ -118,6 +118,14 @@ func (e *codecEngine) pair(b *bundle, what string) {
 
 func (e *codecEngine) fail(class, what string, in interface{}) { e.rep.Fail(class, what, in) }
 
+func groupAddrs(g *key.Group) []string {
+	var out []string
+	for _, n := range g.Nodes {
+		out = append(out, n.Addr)
+	}
+	return out
+}
+
 func groupDurs(g *key.Group) string { return dursOf(g.Period, g.CatchupPeriod) }
 
 func canonID(id string) string {
@@ -160,7 +168,7 @@ func (e *codecEngine) groupAll(g *key.Group, poly interface{}, rtAllowed bool) {
 	cv := e.cv
 	durs := groupDurs(g)
 	in := map[string]interface{}{"scheme": g.Scheme.Name, "n": len(g.Nodes), "id": g.ID, "thr": g.Threshold, "period": g.Period.String(),
-		"seed": g.GenesisSeed != nil, "key": g.PublicKey != nil, "tt": g.TransitionTime}
+		"seed": g.GenesisSeed != nil, "key": g.PublicKey != nil, "tt": g.TransitionTime, "addresses": groupAddrs(g)}
 	orig := cv.rec(cloneGroup(g))
 	wantHash := cloneGroup(g).Hash()
 	// --- TOML structs
